@@ -16,6 +16,7 @@ import (
 	"flag"
 	"fmt"
 	"os"
+	"runtime/debug"
 	"sort"
 	"strings"
 
@@ -25,6 +26,7 @@ import (
 func init() {
 	commands["c16-replay"] = c16Replay
 	commands["builders-selftest"] = buildersSelftest
+	commands["c16-pipeline"] = c16Pipeline
 }
 
 type case16 struct {
@@ -32,6 +34,7 @@ type case16 struct {
 	S      []any `json:"S"`
 	Expect []any `json:"expect"`
 	Modes  []any `json:"modes"`
+	B      []any `json:"B"` // when present: builders produced by the real pipeline for S (used instead of calling FromAST)
 }
 
 func taggedPayload(line, prefix []byte, into any) error {
@@ -330,7 +333,11 @@ func c16Replay(args []string) int {
 	fs := flag.NewFlagSet("c16-replay", flag.ExitOnError)
 	in := fs.String("in", "", "TLC output file with CASE16 lines")
 	traceOut := fs.String("trace", "", "write {kind:derive, S, B(real)} records for BuildersTrace")
+	maxStack := fs.Int("maxstack-mb", 0, "limit the goroutine stack (isolated runs on inputs the real code may not terminate on)")
 	_ = fs.Parse(args)
+	if *maxStack > 0 {
+		debug.SetMaxStack(*maxStack << 20)
+	}
 	f, err := os.Open(*in)
 	if err != nil {
 		fmt.Fprintln(os.Stderr, err)
@@ -351,6 +358,7 @@ func c16Replay(args []string) int {
 	}
 	prefix := []byte(`<<"CASE16", `)
 	cases, matched, outOfScope, traced := 0, 0, 0, 0
+	given := false
 	perKind := map[string]int{}    // field kind -> fields judged
 	perMode := map[string]int{}    // mode -> fields judged
 	perObjKind := map[string]int{} // object kind -> objects judged
@@ -374,14 +382,21 @@ func c16Replay(args []string) int {
 			}
 			var real []verifapi.Builder
 			panicked := ""
-			func() {
-				defer func() {
-					if r := recover(); r != nil {
-						panicked = fmt.Sprint(r)
-					}
+			if c.B == nil {
+				given = false
+			} else {
+				given = true
+			}
+			if !given {
+				func() {
+					defer func() {
+						if r := recover(); r != nil {
+							panicked = fmt.Sprint(r)
+						}
+					}()
+					real = (&verifapi.BuilderGenerator{}).FromAST(schemas)
 				}()
-				real = (&verifapi.BuilderGenerator{}).FromAST(schemas)
-			}()
+			}
 			dangling := false
 			for _, s := range c.S {
 				for _, o := range jlist(jmap(s)["objects"]) {
@@ -419,7 +434,16 @@ func c16Replay(args []string) int {
 			var realN []any
 			raw, _ := json.Marshal(realJ)
 			_ = json.Unmarshal(raw, &realN)
+			if given {
+				realN = c.B
+			}
 			fails := judge16(c, realN)
+			if given {
+				// the builders came out of the real pipeline: name the site accordingly
+				for i := range fails {
+					fails[i].sig = strings.Replace(fails[i].sig, "C16/FromAST/", "C16/ContextForLanguage/", 1)
+				}
+			}
 			for _, s := range c.S {
 				for _, o := range jlist(jmap(s)["objects"]) {
 					perObjKind[objectKind(c.S, jstr(jmap(s)["pkg"]), jstr(jmap(o)["name"]))]++
@@ -510,5 +534,116 @@ func buildersSelftest(args []string) int {
 		}
 	}
 	fmt.Printf("{\"roundtrips\": %d}\n", n)
+	return 0
+}
+
+// stripNilChecks removes generated nil checks from projected builders (the pipeline adds them after the derivation).
+func stripNilChecks(bs []any) {
+	for _, b := range bs {
+		bm := jmap(b)
+		for _, a := range jlist(jmap(bm["ctor"])["assigns"]) {
+			jmap(a)["nilchecks"] = []any{}
+		}
+		for _, o := range jlist(bm["options"]) {
+			for _, a := range jlist(jmap(o)["assigns"]) {
+				jmap(a)["nilchecks"] = []any{}
+			}
+		}
+	}
+}
+
+// c16Pipeline: CASEP lines {S, passes, lang} -> the REAL codegen.Pipeline.ContextForLanguage with builders on and the
+// passes as Transforms.FinalPasses; writes {case, S: schemas the pipeline returns, B: builders it returns} per case.
+func c16Pipeline(args []string) int {
+	fs := flag.NewFlagSet("c16-pipeline", flag.ExitOnError)
+	in := fs.String("in", "", "TLC output with CASEP lines")
+	out := fs.String("out", "", "ndjson of {case, S, B}")
+	_ = fs.Parse(args)
+	f, err := os.Open(*in)
+	if err != nil {
+		fmt.Fprintln(os.Stderr, err)
+		return 2
+	}
+	defer f.Close()
+	rd := bufio.NewReaderSize(f, 4<<20)
+	of, err := os.Create(*out)
+	if err != nil {
+		fmt.Fprintln(os.Stderr, err)
+		return 2
+	}
+	defer of.Close()
+	w := bufio.NewWriter(of)
+	defer w.Flush()
+	prefix := []byte(`<<"CASEP", `)
+	langs := allLanguages()
+	n, written, rejected := 0, 0, 0
+	other := map[string]int{}
+	for {
+		line, rerr := rd.ReadBytes('\n')
+		if bytes.HasPrefix(line, prefix) {
+			var c struct {
+				S      []any  `json:"S"`
+				Passes []any  `json:"passes"`
+				Lang   string `json:"lang"`
+			}
+			if err := taggedPayload(line, prefix, &c); err != nil {
+				fmt.Fprintln(os.Stderr, "bad CASEP line:", err)
+				return 2
+			}
+			n++
+			schemas, err := unprojSchemas(any(c.S))
+			if err != nil {
+				fmt.Fprintln(os.Stderr, "harness:", err)
+				return 2
+			}
+			var final verifapi.Passes
+			names := []string{}
+			for _, a := range c.Passes {
+				p, _, perr := passFromAct(jmap(a))
+				if perr != nil {
+					fmt.Fprintln(os.Stderr, "harness:", perr)
+					return 2
+				}
+				final = append(final, p)
+				names = append(names, jstr(jmap(a)["a"]))
+			}
+			var ctx verifapi.LanguageContext
+			var cerr error
+			panicked := ""
+			func() {
+				defer func() {
+					if r := recover(); r != nil {
+						panicked = fmt.Sprint(r)
+					}
+				}()
+				pipeline, perr := verifapi.NewPipeline()
+				if perr != nil {
+					panic(perr)
+				}
+				pipeline.Output.Builders = true
+				pipeline.Transforms.FinalPasses = final
+				ctx, cerr = pipeline.ContextForLanguage(langs[c.Lang](), schemas)
+			}()
+			if panicked != "" {
+				other["C04/Pipeline.ContextForLanguage/panic/"+panicClass(panicked)]++
+				continue
+			}
+			if cerr != nil {
+				rejected++
+				continue
+			}
+			bs := normJSON(projBuilders(ctx.Builders))
+			stripNilChecks(bs)
+			rec, _ := json.Marshal(J{"case": J{"fields": []any{}, "variant": "pipeline:" + c.Lang + ":" + strings.Join(names, "+")},
+				"S": normJSON(projSchemas(ctx.Schemas)), "B": bs})
+			w.Write(rec)
+			w.WriteByte('\n')
+			written++
+		}
+		if rerr != nil {
+			break
+		}
+	}
+	fmt.Printf("{\"cases\": %d, \"written\": %d, \"rejected\": %d, \"observations\": %s}\n", n, written, rejected, canonJ(other))
 	return 0
 }
